@@ -75,7 +75,7 @@ class U2(Universe):
             if l in m.L and m.l_live(l):
                 for cat in [None, '', 'x', 'y']:
                     o.append(LoopSetCat(l, cat))
-                for name, v in [('_a', 'V1'), ('_B', None), ('_c', 'V2'), ('c', 'V1')]:
+                for name, v in [('_a', 'V1'), ('_B', None), ('_c', 'V2'), ('c', 'V1'), ('c', None)]:
                     o.append(LoopAddItem(l, name, v))
                 o.append(LoopDestroy(l))
                 o.append(LoopInfo(l))
@@ -182,11 +182,14 @@ def main():
     samples = []
     exhaustive = True
     only = os.environ.get('C04_ONLY')
-    for cls, dq, dt in UNIVERSES:
+    override = [int(x) for x in os.environ.get('C04_DEPTHS', '').split(',') if x]
+    for ui, (cls, dq, dt) in enumerate(UNIVERSES):
         u = cls()
         if only and only not in u.name:
             continue
         d = dq if tier == 'quick' else dt
+        if override:
+            d = override[ui]
         st = bfs(u, d, rep, dl)
         per[u.name] = {'states': st['states'], 'transitions': st['transitions'], 'depth_bound': d,
                        'depth_completed': st['depth_completed'], 'exhaustive_to_bound': st['exhaustive'] and st['depth_completed'] == d or st['frontier_left'] == 0}
